@@ -249,6 +249,16 @@ fn simulate(c: &ReadCase) -> (Vec<(Vec<u8>, Vec<u8>)>, Vec<(Vec<u8>, Vec<u8>)>) 
         1 => { let n = f2.len() / 3; let moved: Vec<_> = f2.drain(f2.len() - n..).collect(); f1.extend(moved); }
         _ => {}
     }
+    // In an eighth of the read sets (k <= 41) one 100-base read is present 500 times in either file: its k-mers
+    // occur exactly 1000 times, the last multiplicity the table can show
+    if c.read_seed % 8 == 6 && c.k <= 41 {
+        let mut x = c.read_seed | 1;
+        let r: Vec<u8> = (0..100).map(|_| { x = crate::engine::splitmix64(x); model::BASES[(x >> 31) as usize & 3] }).collect();
+        for i in 0..1000 {
+            let read = (if i % 3 == 0 && c.rc { model::revcomp(&r) } else { r.clone() }, vec![b'I'; 100]);
+            if i % 2 == 0 { f1.push(read) } else { f2.push(read) }
+        }
+    }
     // In an eighth of the read sets (k <= 41) one split k-mer occurs more than 65536 times: poly-G reads, as
     // real runs contain them. It lies far above the tabulated range and must not show up in any row.
     if c.read_seed % 8 == 5 && c.k <= 41 {
